@@ -5,6 +5,7 @@
 -/
 import RpyModel.Drv.C01
 import RpyModel.Drv.C17
+import RpyModel.Drv.C20
 open Lean
 
 def dispatch (R : Type) [Num R] (kind : String) (j : Json) : Except String Json :=
@@ -13,6 +14,9 @@ def dispatch (R : Type) [Num R] (kind : String) (j : Json) : Except String Json 
   | "nvar_run" => Drv.handleNvarRun R j
   | "delay_run" => Drv.handleDelayRun R j
   | "concat" => Drv.handleConcat R j
+  | "forecast" => Drv.handleForecast j
+  | "one_hot" => Drv.handleOneHot j
+  | "map_steps" => Drv.handleMapSteps R j
   | _ => throw s!"unknown kind {kind}"
 
 def handle (line : String) : String :=
